@@ -13,6 +13,7 @@ type bufHandle struct {
 	b     []byte
 	s     string
 	isStr bool
+	stale bool // handed out before the last Reset: not watched, still usable as a destination variable
 }
 
 func (h *bufHandle) content() string {
@@ -33,9 +34,26 @@ func OpBufferHistory(o *Out, r *Rng, initCap int, steps int) {
 	for i := 0; i < steps; i++ {
 		var op string
 		newCap := 0
-		k := r.Intn(12)
+		k := r.Intn(14)
 		if len(hs) == 0 && k >= 8 {
 			k = r.Intn(6)
+		}
+		live := 0
+		for _, h := range hs {
+			if !h.stale {
+				live++
+			}
+		}
+		if live == 0 && k >= 8 && k <= 11 {
+			k = r.Intn(6)
+		}
+		pickLive := func() int {
+			for {
+				h := r.Intn(len(hs))
+				if !hs[h].stale {
+					return h
+				}
+			}
 		}
 		switch k {
 		case 0, 1, 2:
@@ -65,9 +83,11 @@ func OpBufferHistory(o *Out, r *Rng, initCap int, steps int) {
 			op = "ab h" + hex.EncodeToString([]byte(strconv.Itoa(int(n)))) + " 1"
 			newCap = cap(buf.AcquireBytes())
 		case 7:
-			if r.Chance(1, 3) {
+			if r.Chance(1, 2) {
 				buf.Reset()
-				hs = nil
+				for _, h := range hs {
+					h.stale = true
+				}
 				op = "rs"
 				newCap = cap(buf.AcquireBytes())
 			} else {
@@ -77,8 +97,20 @@ func OpBufferHistory(o *Out, r *Rng, initCap int, steps int) {
 				op = "bz h" + hex.EncodeToString([]byte(p))
 				newCap = cap(buf.AcquireBytes())
 			}
-		case 8, 9:
+		case 12, 13:
+			// AssignBuf into the variable of an earlier handle (possibly stale after a Reset)
 			h := r.Intn(len(hs))
+			n := []int{r.Intn(100), r.Intn(100000), 17, 42, 2024, 1984}[r.Intn(6)]
+			if hs[h].isStr {
+				inspector.AssignBuf(&hs[h].s, n, buf)
+			} else {
+				inspector.AssignBuf(&hs[h].b, n, buf)
+			}
+			hs[h].stale = false
+			op = "ad " + strconv.Itoa(h) + " h" + hex.EncodeToString([]byte(strconv.Itoa(n)))
+			newCap = cap(buf.AcquireBytes())
+		case 8, 9:
+			h := pickLive()
 			if hs[h].isStr || len(hs[h].b) == 0 {
 				op = "nop"
 				break
@@ -87,7 +119,7 @@ func OpBufferHistory(o *Out, r *Rng, initCap int, steps int) {
 			hs[h].b[idx] = byte('A' + r.Intn(26))
 			op = "ow " + strconv.Itoa(h) + " " + strconv.Itoa(idx) + " " + strconv.Itoa(int(hs[h].b[idx]))
 		case 10:
-			h := r.Intn(len(hs))
+			h := pickLive()
 			if hs[h].isStr {
 				op = "nop"
 				break
@@ -97,7 +129,7 @@ func OpBufferHistory(o *Out, r *Rng, initCap int, steps int) {
 			op = "ap " + strconv.Itoa(h) + " h" + hex.EncodeToString([]byte(q))
 			newCap = cap(hs[h].b)
 		default:
-			h := r.Intn(len(hs))
+			h := pickLive()
 			if hs[h].isStr {
 				op = "nop"
 				break
@@ -111,6 +143,10 @@ func OpBufferHistory(o *Out, r *Rng, initCap int, steps int) {
 		var sb strings.Builder
 		sb.WriteString(strconv.Itoa(newCap))
 		for _, h := range hs {
+			if h.stale {
+				sb.WriteString(" -")
+				continue
+			}
 			c := len(h.s)
 			if !h.isStr {
 				c = cap(h.b)
